@@ -684,7 +684,7 @@ pub fn run(prop: &str, ctx: &Ctx) -> i32 {
         rep.inconclusive("clock_gettime interposition is not effective in this binary");
         return rep.finish(ctx, 1);
     }
-    let cats: Vec<Catalogue> = vec![build_catalogue(ctx, 1, ctx.tier.pick(120, 300)), build_catalogue(ctx, 2, ctx.tier.pick(120, 300))];
+    let cats: Vec<Catalogue> = vec![build_catalogue(ctx, 1, ctx.tier.pick(120, 300)), build_catalogue(ctx, 2, ctx.tier.pick(120, 300)), build_catalogue(ctx, 3, ctx.tier.pick(100, 300))];
     rep.set_extra("catalogue", json!(cats.iter().map(|c| json!({"inner_num_leaves": c.n, "items": c.items.len(),
         "valid": c.items.iter().filter(|i| i.verifies && i.kind == "valid").count(), "tampered": c.items.iter().filter(|i| i.kind == "tampered").count(),
         "dummy_key": c.items.iter().filter(|i| i.kind == "dummy-key").count(), "wrong_length": c.items.iter().filter(|i| !i.len_ok).count()})).collect::<Vec<_>>()));
@@ -693,7 +693,7 @@ pub fn run(prop: &str, ctx: &Ctx) -> i32 {
         if ctx.over_budget() {
             return;
         }
-        let cat = &cats[(h % 2) as usize];
+        let cat = &cats[(h % cats.len() as u64) as usize];
         run_history(prop, ctx, &rep, cat, h);
     });
     rep.finish(ctx, ctx.tier.pick(300, 5000))
